@@ -5,22 +5,22 @@
 #include "common.h"
 #include "refmodel.h"
 
-const char *CHK_RULE = "one case = one descriptor (2..10 uniquely named commands in 1..4 groups (any subset of groups disabled), 0..6 variables each over 5 types x 3 widths x 3 access modes, named or not, "
+const char *CHK_RULE = "one case = one descriptor (2..10 uniquely named commands in 1..6 groups (any subset of groups disabled), 0..6 variables each over 5 types x 3 widths x 3 access modes, named or not, "
                        "all 16 handler subsets, only_test / disable / group-disable / implicit_write, descriptions or not) checked at four capacities (generous, text+2, text+1 = "
                        "exact fit, text = one short) for the TEST text of a target command (command FSM and event FSM) and for the command list; plus the dispatcher cross-check of "
                        "every (command, form); every case non-trivial; distinct by (reference list text, reference TEST text, capacity class)";
 
 static char note[300];
 static struct { char type; char text[700]; char prod; } got[80]; static int ngot;
+static char listbuf[40000]; static size_t listlen;      /* concatenated raw command-list units */
 static void on_unit(bool isA, bool raw, const char *text, size_t len, bool a, bool b)
 {
         (void)len; (void)a; (void)b;
         if (ngot >= 80) return;
         if (raw) {
-                if (ngot == 0 || got[ngot - 1].type != 'L') { got[ngot].type = 'L'; got[ngot].text[0] = 0; got[ngot].prod = 'A'; ngot++; }
-                char *d = got[ngot - 1].text; size_t o = strlen(d);
-                for (const char *p = text; *p && o < sizeof got[0].text - 1; p++) if (*p != '\r') d[o++] = *p;
-                d[o] = 0; return;
+                if (ngot == 0 || got[ngot - 1].type != 'L') { got[ngot].type = 'L'; got[ngot].text[0] = 0; got[ngot].prod = 'A'; ngot++; listlen = 0; listbuf[0] = 0; }
+                for (const char *p = text; *p && listlen < sizeof listbuf - 1; p++) if (*p != '\r') listbuf[listlen++] = *p;
+                listbuf[listlen] = 0; return;
         }
         bool code = isA && (strcmp(text, "OK") == 0 || strcmp(text, "ERROR") == 0);
         got[ngot].type = code ? 'C' : 'D'; got[ngot].prod = isA ? 'A' : 'U';
@@ -41,21 +41,21 @@ static cat_return_state policy(struct hcall *h)
 void chk_describe(FILE *f)
 {
         w_describe(f); fprintf(f, "%s\nobserved units:", note);
-        for (int i = 0; i < ngot && i < 12; i++) { char b[1500]; fmt_bytes(b, sizeof b, (uint8_t *)got[i].text, strlen(got[i].text)); fprintf(f, " %c%c\"%s\"", got[i].prod, got[i].type, b); }
+        for (int i = 0; i < ngot && i < 12; i++) { char b[3000]; const char *t = got[i].type == 'L' ? listbuf : got[i].text; size_t n = strlen(t); fmt_bytes(b, sizeof b, (const uint8_t *)t, n > 700 ? 700 : n); fprintf(f, " %c%c\"%s\"", got[i].prod, got[i].type, b); }
         fprintf(f, "\n"); io_describe(f);
 }
 
 /* descriptor kept outside the world so that it can be rebuilt at several capacities */
-#define MAXC 12
+#define MAXC 14
 static struct dcmd { char name[16]; char desc[24]; bool has_desc, only_test, disable, implicit; int grp; unsigned hmask; int nv; struct { int type, access; size_t size; char name[6]; bool named; } v[6]; } D[MAXC];
 static int ND, NG; static bool gdis[MAXGRP];
 static void gen_descriptor(void)
 {
-        NG = 1 + (int)rn(MAXGRP); ND = NG + (int)rn(MAXC - 2 - (unsigned)NG);
+        NG = 1 + (int)rn(6); ND = NG + (int)rn(MAXC - 2 - (unsigned)NG);
         for (int g = 0; g < MAXGRP; g++) gdis[g] = chance(NG > 2 ? 40 : 15);
         for (int i = 0; i < ND; i++) {
                 struct dcmd *d = &D[i]; memset(d, 0, sizeof *d);
-                snprintf(d->name, sizeof d->name, "+C%d%s", i, chance(30) ? "LONGER" : chance(20) ? "x" : "");
+                snprintf(d->name, sizeof d->name, "+C%02d%s", i, chance(30) ? "LONGER" : chance(20) ? "x" : "");
                 d->has_desc = chance(40); snprintf(d->desc, sizeof d->desc, "d%d%s", i, chance(50) ? " some text" : "");
                 d->only_test = chance(12); d->disable = chance(12); d->implicit = chance(10); d->grp = i < NG ? i : (int)rn((unsigned)NG);
                 d->hmask = rn(16); if (d->implicit) d->hmask &= 4;
@@ -155,10 +155,10 @@ static void check_list_via(const char *helpname, const char *request)
 {
         int hi = widx(helpname);
         if (hi < 0 || !cmd_enabled(hi)) return;
-        char ref[6000], reff[6000], gotf[6000]; size_t longest = 0;
+        static char ref[40000], reff[40000], gotf[40000]; size_t longest = 0;
         ref_fmt_list(ref, sizeof ref, "\n", &longest);
         /* lines are flushed one by one: the list stops with ERROR at the first line that does not fit */
-        char expect[6000]; size_t o = 0; bool all_fit = true; const char *p = ref;
+        static char expect[40000]; size_t o = 0; bool all_fit = true; const char *p = ref;
         while (*p) {
                 const char *e = p; if (*e == '\n') e++; e = strchr(e, '\n'); size_t n = (size_t)(e - p) + 1;
                 if (n + 1 > W.capA) { all_fit = false; break; }
@@ -168,7 +168,7 @@ static void check_list_via(const char *helpname, const char *request)
         snprintf(note, sizeof note, "command list at command capacity %zu; longest reference line %zu bytes; %s", W.capA, longest, all_fit ? "all lines fit" : "a line does not fit: ERROR expected there");
         if (!run_line(request)) { inconclusive("no quiescence"); return; }
         CNT("list_requests"); if (request[3] == 'T') CNT("list_requests_via_test_handler");
-        const char *lst = (ngot >= 1 && got[0].type == 'L') ? got[0].text : "";
+        const char *lst = (ngot >= 1 && got[0].type == 'L') ? listbuf : "";
         int ci = (ngot >= 1 && got[0].type == 'L') ? 1 : 0;
         filter_list(expect, reff, sizeof reff); filter_list(lst, gotf, sizeof gotf);
         const char *code = (ci < ngot && got[ci].type == 'C') ? got[ci].text : "?";
@@ -199,21 +199,48 @@ static void cross_check(void)
         }
 }
 
+/* sweep: command list of tables with 250..319 commands (the list walks the whole table; indices must not wrap at 2^8) */
+static void sweep_big_list(long item)
+{
+        int n = 250 + (int)(item * 7) % 70; if (item == 0) n = 256; if (item == 1) n = 257; if (item == 2) n = 319;
+        snprintf(note, sizeof note, "sweep: command list of a table with %d commands", n);
+        w_begin();
+        int done = 0; char nm[16];
+        for (int g = 0; g < 3; g++) {
+                int cnt = g == 2 ? n - done : n / 3;
+                struct cat_command *a = w_group((size_t)cnt, g == 1 && (item & 1));
+                for (int j = 0; j < cnt; j++, done++) {
+                        if (done == n - 1) { a[j].name = xstr("#H"); a[j].run = h_run; continue; }
+                        snprintf(nm, sizeof nm, "+K%03d", done); a[j].name = xstr(nm);
+                        unsigned hm = 1 + rn(15); a[j].run = (hm & 1) ? h_run : NULL; a[j].read = (hm & 2) ? h_read : NULL; a[j].write = (hm & 4) ? h_write : NULL; a[j].test = (hm & 8) ? h_test : NULL;
+                        a[j].disable = done % 11 == 3; a[j].only_test = done % 13 == 5;
+                }
+        }
+        size_t cap = w_min_cap() + 24;
+        w_buffers((item & 2) ? cap * 2 : cap, (item & 2) != 0, 16);
+        w_init((int)(item & 1));
+        POLICY = policy; ON_UNIT = on_unit; test_chain = false;
+        check_list_via("#H", "AT#H");
+        nontrivial(hash_u64((uint64_t)n, 1900 + (uint64_t)item));
+        CNT("big_table_lists");
+}
+#define N_BIG 10
 struct case_budget chk_budget(const char *tier)
 {
-        struct case_budget b = { 0, strcmp(tier, "thorough") == 0 ? 2000000 : 60000 };
+        struct case_budget b = { N_BIG, strcmp(tier, "thorough") == 0 ? 2000000 : 60000 };
         return b;
 }
 void chk_run_case(uint64_t seed, long c, bool is_sweep)
 {
-        (void)seed; (void)c; (void)is_sweep; note[0] = 0;
+        (void)seed; note[0] = 0;
+        if (is_sweep) { sweep_big_list(c); return; }
         gen_descriptor();
         test_chain = chance(50);
         int target = (int)rn((unsigned)ND - 2);
         /* generous build: reference lengths, cross-check */
         build(700, chance(50), 700);
         char ref[800]; int tl = ref_fmt_test(W.cmd[widx(D[target].name)], "\n", ref, sizeof ref);
-        char lref[6000]; size_t longest = 0; ref_fmt_list(lref, sizeof lref, "\n", &longest);
+        static char lref[40000]; size_t longest = 0; ref_fmt_list(lref, sizeof lref, "\n", &longest);
         uint64_t h = hash_bytes(lref, strlen(lref), hash_bytes(ref, (size_t)tl, 19));
         check_test(widx(D[target].name), 0);
         if (!case_failed()) check_list();
